@@ -689,6 +689,10 @@ def evidence_meta(prop):
             "generated",
             "validity of generated operations is py-gql's own verdict "
             "(subscribe() is documented to assume a validated document)",
+            "consumer-side fault: a read given up on (cancelled) and retried; "
+            "injected only while the source is still waiting for its next "
+            "event and only for sources whose __anext__ is safe to cancel "
+            "(queue, pull), so that no event is legitimately lost",
         ],
     }
 
